@@ -96,7 +96,7 @@ def handleCrew (j : Json) : Json :=
       match acc.1 with
       | none => acc
       | some (c, store) =>
-        match processMsg resolve asCrewOp sameChanged 400 c msg with
+        match processMsg resolve asCrewOp sameChanged 4000 c msg with
         | none => (none, acc.2 ++ [Json.mkObj [("diverged", true)]])
         | some (c', r) =>
           let store' := applyChanges store r.changed
